@@ -9,33 +9,33 @@ from shapes import prod, fmt
 ID = 'C05'
 LEVEL = 'proof'
 RULE = ('exhaustive per axis: extents n=1..N (quick 4, thorough 6), start/stop in [-(n+2),n+2] or None, step in {-3..-1,1..3} or None or '
-        'omitted (2-part), packed and both dynamic encodings, index/apply/view/mutable levels; 1..3 axes with integers (every in-range '
-        'value), ranges and an ellipsis in every position (also covering 0 axes); fewer entries than axes; extents up to 2^31 at index '
-        'level (shape + one mapped index). non-trivial = result differs from the identity view')
+        'omitted (2-part), packed and both dynamic encodings, index/apply/view/mutable levels incl. the variadic view::slice with a single '
+        'range; 1..3 axes with integers (every in-range value), ranges and an ellipsis in every position (also covering 0 axes, also last); '
+        'fewer entries than axes; extents up to 2^31 at index level (shape + one mapped index). non-trivial = result differs from the identity view')
 EXHAUSTIVE = {'quick': True, 'thorough': True}
 ANCHORS = {
-    'Slice.computeRange/computeStep/lengthOf': 'index::compute_range, index::compute_step, ceil(float(range)/step) (slice.hpp:35,93,473,992; constexpr_ceil)',
-    'Slice.computeIndex': 'index::compute_index (slice.hpp:106)',
-    'Slice.shapeSlice/sliceIdx': 'index::shape_slice, index::slice (slice.hpp:848,1019), index::apply_shape_slice/apply_slice (tuple)',
-    'Slice.shapeDynamicSlice/dynamicSlice': 'index::shape_dynamic_slice, index::dynamic_slice (slice.hpp:446,627), apply_* (list of either)',
-    'Slice.sliceView/ctadCollapse': 'view::slice, view::apply_slice, view::mutable_slice, view::apply_mutable_slice (view/slice.hpp:74-102)',
+    'Slice.sliceIndices/computeRange/computeStep/lengthOf': 'index::slice_indices, index::compute_range, index::compute_step, (s + step - 1) / step (slice.hpp)',
+    'Slice.computeIndex': 'index::compute_index (slice.hpp)',
+    'Slice.shapeSlice/sliceIdx': 'index::shape_slice, index::slice, index::apply_shape_slice/apply_slice (tuple)',
+    'Slice.shapeDynamicSlice/dynamicSlice': 'index::shape_dynamic_slice, index::dynamic_slice, apply_* (list of either)',
+    'Slice.sliceView/dynamicSliceView': 'view::slice, view::apply_slice, view::mutable_slice, view::apply_mutable_slice (view/slice.hpp)',
 }
 MANIFEST = dict(
-    text='Proof on an explicit decidable domain Dom + known findings: Lean model of compute_range/compute_step/compute_index, the binary32 '
-         'length computation and the packed and dynamic shape/index loops; theorems: on Dom (forward slices with None/in-range bounds incl. '
-         'negative in-range bounds, backward slices with None stop or stop 0, the empty forms start=stop, integers in range, one ellipsis in '
-         'any position, any rank, any extent below 2^24) the model equals Python slice.indices / NumPy basic indexing in shape and in every '
-         'element, indices stay in the source shape, packed = dynamic encoding; counterexample theorems for every off-domain class. '
-         'Correspondence: exhaustive per-axis run of the real headers against model and CPython/NumPy on every check.',
-    note='Outside Dom the unchanged library disagrees with Python (empty slices non-empty, no clamping, a[-1:], a[-2:1], negative step with a '
-         'stop, float length beyond 2^24, missing trailing axes, view::slice with one range argument): listed as known findings by input class; '
-         'inside those classes the wrong answer must still equal the model\'s mirrored answer, so a new kind of disagreement is a violation.',
+    text='Proof: Lean model of slice_indices/compute_range/compute_step/compute_index, the integer-ceiling length and the packed and dynamic '
+         'shape/index loops (headers after the fix: commits fixes/C05-*.diff); theorems for every extent, every start/stop/step (omitted, '
+         'negative, out of range, empty, negative step), integers in range, one ellipsis in any position, fewer entries than axes, any rank: '
+         'the normalisation equals CPython PySlice_AdjustIndices, shape and every element equal Python slice.indices / NumPy basic indexing, '
+         'indices stay in the source shape, packed = dynamic encoding. Correspondence: exhaustive per-axis run of the real headers against '
+         'model and CPython/NumPy on every check.',
+    note='Model is hand-written; fidelity rests on the differential run (IMPL = MODEL required on every generated input, also where IMPL = oracle). '
+         'slice_indices works in signed 64 bit: modelled in unbounded Int, sound for extents below 2^62 (hypothesis of the theorems) and int parts. '
+         'History: nine defect classes of the original case analysis were repaired by fix: commits; no known findings left.',
     technique='Lean 4 case analysis + induction over entry lists; differential correspondence (exhaustive small scope) against the C++ headers, CPython and NumPy')
-ASSUMPTIONS = ['slice parts are C++ int (32 bit), shapes and indices size_t (64 bit) containers, as the views instantiate them',
+ASSUMPTIONS = ['slice parts are C++ int (32 bit), shapes and indices size_t (64 bit) containers, as the views instantiate them; extents below 2^62',
                'array_slice (integer-array "fancy" indexing) is not basic indexing and is not covered',
-               'integers outside [-n, n) and more entries than axes (IndexError in NumPy) are argument errors (C15), not generated here']
+               'integers outside [-n, n), more entries than axes (IndexError in NumPy) and step 0 (ValueError) are argument errors (C15), not generated here']
 PARTIAL = []
-TRUSTED = ['binary32 semantics of static_cast<float> and float division on the host (IEEE-754 round-to-nearest-even), mirrored by Slice.f32Round']
+TRUSTED = []
 
 BIG = 2 ** 24
 
@@ -90,68 +90,21 @@ def triple(e):
 
 
 # ------------------------------------------------------------------------------------------------------------------
-# Dom — python mirror of NmVerif.Slice.DomRange / DomEntries (lean/NmVerif/Lemmas/Slice.lean).  Must be the same predicate:
-# on dom=True cases the runner requires MODEL = ORACLE (a difference is reported as machinery drift).
+# Dom — python mirror of NmVerif.Slice.domEntries (lean/NmVerif/Lemmas/SliceND.lean): every valid basic index.
+# On dom=True cases the runner requires MODEL = ORACLE (a difference is reported as machinery drift).
 # ------------------------------------------------------------------------------------------------------------------
 
-def dom_range(n, a, b, c):
-    if n < 1 or n >= BIG:
-        return False
-    for v in (a, b, c):
-        if v is not None and not (-2 ** 31 <= v < 2 ** 31):
-            return False
-    if c == 0 or (c is not None and abs(c) >= BIG):
-        return False
-    fwd = c is None or c > 0
-    zero = lambda v: v == 0 or v == -n
-    # empty forms
-    if a is not None and b is not None and a == b and b <= n:
-        return True
-    if b is not None and zero(b) and ((a is None and fwd) or (a is not None and zero(a))):
-        return True
-    if a == n and ((b is None and fwd) or (b is not None and b >= n)):
-        return True
-    if fwd:
-        if a is None:
-            lo, nonneg = 0, True
-        elif 0 <= a < n:
-            lo, nonneg = a, True
-        elif -n <= a < 0:
-            lo, nonneg = a + n, False
-        else:
-            return False
-        if b is None:
-            if not nonneg:
-                return False
-            hi = n
-        elif b >= n:
-            hi = n
-        elif 0 < b < n:
-            if not nonneg:
-                return False
-            hi = b
-        elif -n < b < 0:
-            hi = b + n
-        else:
-            return False
-        return lo < hi
-    if b is None:
-        return a is None or 0 <= a < n
-    return b == 0 and a is not None and 0 < a < n
+EXT_MAX = 2 ** 62
 
 
 def dom_entries(shape, es):
-    """every axis addressed (entries + ellipsis expansion = rank), at most one ellipsis, integers in range, ranges in Dom"""
-    if any(n < 1 for n in shape):
-        return False
+    """at most one ellipsis, no more entries than axes, integers in [-n, n), steps non-zero, extents below 2^62"""
     nell = sum(1 for e in es if e[0] == 'e')
     if nell > 1:
         return False
     nax = len(es) - nell
-    if nax > len(shape) or (nell == 0 and nax != len(shape)):
+    if nax > len(shape):
         return False
-    if es and es[-1][0] == 'e' and nax == len(shape):
-        return False        # ellipsis in last position taking no axis (Lean: domGo [] (_ :: _) = false)
     k = 0
     for e in es:
         if e[0] == 'e':
@@ -159,116 +112,23 @@ def dom_entries(shape, es):
             continue
         n = shape[k]
         k += 1
+        if n >= EXT_MAX:
+            return False
         if e[0] == 'i':
-            if not (-n <= e[1] < n and n < 2 ** 63):
+            if not (-n <= e[1] < n):
                 return False
-        elif not dom_range(n, *triple(e)):
+        elif triple(e)[2] == 0:
             return False
     return True
-
-
-def trailing_empty_ellipsis(enc, shape, es):
-    """packed encoding, ellipsis in the last position taking no axis: shape_slice / slice read shape[dim]"""
-    return enc == 'packed' and len(es) >= 1 and es[-1][0] == 'e' and len(es) - 1 == len(shape)
-
-
-def ctad_collapse(es):
-    return [('i', v) for v in es[0][1:]]
-
-
-def ctad(level, enc, es):
-    return enc == 'packed' and level in ('view', 'mutable') and len(es) == 1 and es[0][0] in ('r', 'r2') and all(v is not None for v in es[0][1:])
-
-
-# ------------------------------------------------------------------------------------------------------------------
-# known-finding input classes (decided from the request alone)
-# ------------------------------------------------------------------------------------------------------------------
-
-def _ranges_with_extent(case):
-    """[(n, a, b, c)] for every range entry of the request (python axis assignment)"""
-    enc, level, shape, es = parse_req(case.req)
-    nell = sum(1 for e in es if e[0] == 'e')
-    nax = len(es) - nell
-    out = []
-    k = 0
-    for e in es:
-        if e[0] == 'e':
-            k += max(0, len(shape) - nax)
-            continue
-        if k >= len(shape):
-            break
-        if e[0] in ('r', 'r2'):
-            out.append((shape[k],) + triple(e))
-        k += 1
-    return out
 
 
 def _pylen(n, a, b, c):
     return len(range(n)[slice(a, b, c)])
 
 
-def _any(case, f):
-    return any(f(n, a, b, c) for (n, a, b, c) in _ranges_with_extent(case) if not dom_range(n, a, b, c) and n < BIG)
-
-
-def k_empty(case):
-    return _any(case, lambda n, a, b, c: _pylen(n, a, b, c) == 0)
-
-
-def k_clamp(case):
-    def f(n, a, b, c):
-        if _pylen(n, a, b, c) == 0:
-            return False
-        return (a is not None and (a < -n or a >= n)) or (b is not None and b < -n)
-    return _any(case, f)
-
-
-def k_neg_start_none_stop(case):
-    return _any(case, lambda n, a, b, c: _pylen(n, a, b, c) > 0 and a is not None and -n <= a < 0 and b is None)
-
-
-def k_neg_start_pos_stop(case):
-    return _any(case, lambda n, a, b, c: _pylen(n, a, b, c) > 0 and (c is None or c > 0) and a is not None and -n <= a < 0 and b is not None and 0 < b < n)
-
-
-def k_neg_step_stop(case):
-    return _any(case, lambda n, a, b, c: _pylen(n, a, b, c) > 0 and c is not None and c < 0 and b is not None)
-
-
-def k_float(case):
-    enc, level, shape, es = parse_req(case.req)
-    return any(n >= BIG for (n, a, b, c) in _ranges_with_extent(case))
-
-
-def k_missing_axes(case):
-    enc, level, shape, es = parse_req(case.req)
-    if ctad(level, enc, es):
-        return False
-    nell = sum(1 for e in es if e[0] == 'e')
-    return nell == 0 and len(es) < len(shape)
-
-
-def k_ctad(case):
-    enc, level, shape, es = parse_req(case.req)
-    return ctad(level, enc, es)
-
-
-def k_trailing_ellipsis(case):
-    enc, level, shape, es = parse_req(case.req)
-    return trailing_empty_ellipsis(enc, shape, ctad_collapse(es) if ctad(level, enc, es) else es)
-
-
-KNOWN_PREDICATES = {
-    'slice_single_range_ctad': k_ctad,
-    'slice_trailing_empty_ellipsis': k_trailing_ellipsis,
-    'slice_missing_trailing_axes': k_missing_axes,
-    'slice_float_length': k_float,
-    'slice_empty_result': k_empty,
-    'slice_bound_needs_clamping': k_clamp,
-    'slice_neg_start_none_stop': k_neg_start_none_stop,
-    'slice_neg_start_pos_stop': k_neg_start_pos_stop,
-    'slice_neg_step_int_stop': k_neg_step_stop,
-}
+# known-finding input classes: none left (the five index-level classes, the float length, the trailing axes, the trailing
+# empty ellipsis and the single-range CTAD defect were repaired by `fix:` commits, see fixes/C05-*.diff)
+KNOWN_PREDICATES = {}
 
 
 # ------------------------------------------------------------------------------------------------------------------
@@ -390,9 +250,7 @@ def dyn_enc(es):
 
 
 def mk(enc, level, shape, es, tags=(), at=None):
-    if enc == 'packed' and level in ('view', 'mutable') and len(es) == 1 and es[0][0] in ('r', 'r2') and any(v is None for v in es[0][1:]):
-        return None     # view::slice(a, one range with a None part) does not compile (see k_ctad)
-    dom = dom_entries(shape, es) and not ctad(level, enc, es)
+    dom = dom_entries(shape, es)
     req = 'slice enc=%s level=%s shape=%s sl=%s' % (enc, level, fmt(shape), fmt_entries(es))
     if at is not None:
         req += ' at=%s' % fmt(at)
@@ -412,9 +270,10 @@ def harness_specs(tier):
 
 
 def range_class(n, a, b, c):
-    if dom_range(n, a, b, c):
-        return 'range:dom'
-    return 'range:off-dom-empty' if _pylen(n, a, b, c) == 0 else 'range:off-dom-nonempty'
+    if _pylen(n, a, b, c) == 0:
+        return 'range:empty'
+    clamp = (a is not None and (a < -n or a >= n)) or (b is not None and (b < -n or b > n))
+    return 'range:clamped' if clamp else 'range:in-range'
 
 
 def gen_single_axis(tier):
@@ -439,8 +298,8 @@ def gen_single_axis(tier):
                         yield mk('packed', 'mutableapply', [n], [e], t)
                         yield mk('dynP', 'apply', [n], [e], t)
                         yield mk('dynP', 'mutable', [n], [e], t)
-                        if all(v is not None for v in e[1:]):
-                            yield mk('packed', 'view', [n], [e], t + ['ctad'])
+                        yield mk('packed', 'view', [n], [e], t + ['variadic-single'])
+                        yield mk('packed', 'mutable', [n], [e], t + ['variadic-single'])
                     # same range on the first / last axis of a rank-2 source (other axis full)
                     if n <= 3 and c != 'omit':
                         full = ('r', None, None, 1)
@@ -551,7 +410,7 @@ def gen_large(tier, rng):
             e = ('r2', rng.choice([None, 0, rng.randrange(0, n)]), rng.choice([None, n]))
         L = _pylen(n, *triple(e))
         at = [rng.choice([0, L - 1, rng.randrange(L)])] if L > 0 else None
-        tg = ['large', 'n>=2^24' if n >= BIG else 'n<2^24', range_class(n, *triple(e)) if n < BIG else 'range:float']
+        tg = ['large', 'n>=2^24' if n >= BIG else 'n<2^24', range_class(n, *triple(e))]
         yield mk('packed', 'index', [n], [e], tg, at=at)
         for enc in dyn_enc([e])[:1]:
             yield mk(enc, 'index', [n], [e], tg, at=at)
@@ -586,7 +445,9 @@ def post(cases, tier):
     bad = [c for c in cases if c.mans is not None and c.impl is not None and c.impl != 'no-harness' and c.mans != 'unmodelled' and c.impl != c.mans]
     cj = lambda c: {'req': c.req, 'harness': c.harness, 'dom': c.dom, 'oracle': c.oracle, 'impl_answer': c.impl, 'model_answer': c.mans}
     # (a) IMPL wrong in a way the model does not mirror: a new kind of disagreement inside a known class -> failing input
-    new_fail = sorted([c for c in bad if c.oracle is not None and c.impl != c.oracle], key=lambda c: (len(c.req), c.req))
+    # (the runner itself reports IMPL != oracle unless a known-finding predicate swallowed the case)
+    swallowed = lambda c: any(f(c) for f in KNOWN_PREDICATES.values())
+    new_fail = sorted([c for c in bad if c.oracle is not None and c.impl != c.oracle and swallowed(c)], key=lambda c: (len(c.req), c.req))
     if new_fail:
         c = new_fail[0]
         out.append(('property-fails', 'IMPL differs from Python AND from the mirrored model on %d inputs (a disagreement of a new kind; known-finding classes '
